@@ -701,7 +701,13 @@ def _eval_case(case: dict) -> list:
 
     # ---- C08
     if r["raises"] == "RecursionError":
-        fail("depth-limit-bypassed-recursion-error", f"more than {ORACLE_FUEL} nested _parse_schema calls "
+        def _is_alias(node):
+            while isinstance(node, dict) and "n" in node:
+                node = node["n"]
+            return isinstance(node, dict) and "r" in node
+        # F51 is recorded for cycles THROUGH AN ALIAS SCHEMA only; the same failure on a document without one is a new violation
+        has_alias = any(_is_alias(d[1]) for d in decls)
+        fail("depth-limit-bypassed-recursion-error" + ("" if has_alias else "-no-alias-schema"), f"more than {ORACLE_FUEL} nested _parse_schema calls "
              f"(RecursionError at the default interpreter limit), PYOPENAPI_MAX_DEPTH={md}",
              "recursion cut by placeholders at the depth limit")
         return fails
